@@ -130,6 +130,28 @@ def tlc(module, cfg=None, workers=1, env=None, timeout=600, extra=(), cwd=None, 
     return r
 
 
+def apalache(module, cinit, init, inv, length, outdir, timeout=600):
+    """Run apalache-mc check on spec/<module>.tla. Returns "ok" (no error up to the length), "violated", or "unavailable: ..."."""
+    import shutil as _sh
+    exe = _sh.which("apalache-mc")
+    if not exe:
+        return "unavailable: apalache-mc is not on PATH"
+    os.makedirs(outdir, exist_ok=True)
+    cmd = [exe, "check", "--out-dir=" + outdir, "--cinit=" + cinit, "--init=" + init, "--inv=" + inv, "--length=%d" % length, os.path.join(SPEC, module + ".tla")]
+    e = dict(os.environ)
+    e.pop("JAVA_TOOL_OPTIONS", None)
+    try:
+        p = subprocess.run(cmd, cwd=outdir, env=e, stdout=subprocess.PIPE, stderr=subprocess.STDOUT, text=True, timeout=timeout)
+    except subprocess.TimeoutExpired:
+        return "unavailable: timeout"
+    dbg("apalache %s %s %s -> %s" % (module, cinit, inv, p.returncode))
+    if "The outcome is: NoError" in p.stdout:
+        return "ok"
+    if "The outcome is: Error" in p.stdout and "Checker has found an error" in p.stdout:
+        return "violated"
+    return "unavailable: " + p.stdout[-300:].replace("\n", " ")
+
+
 # ------------------------------------------------------------------ driver
 
 def zlib_crc(text):
